@@ -3,17 +3,21 @@ package props
 import (
 	"bytes"
 	"compress/gzip"
+	"crypto/sha256"
 	"encoding/binary"
 	"fmt"
+	"net"
 	"os"
 	"reflect"
 	"runtime"
+	"strings"
 	"sync"
 	"time"
 
 	"ergo.services/ergo/gen"
 	"ergo.services/ergo/lib"
 	"ergo.services/ergo/net/edf"
+	"ergo.services/ergo/net/handshake"
 
 	"verifsim/simkit"
 )
@@ -56,7 +60,7 @@ func (c16) Components() ([]string, []string) {
 		[]string{"TCP (simnet: byte injection into a live link)", "registrar (static table)", "default logger disabled"}
 }
 
-var c16Kinds = []string{"flip", "flip", "flip", "trunc", "len", "len", "type", "order", "garbage", "zlen", "zbomb", "splice", "hsflip", "hshuge", "hsgarbage", "count", "count", "hsvalue", "shortframe", "shortframe"}
+var c16Kinds = []string{"flip", "flip", "flip", "trunc", "len", "len", "type", "order", "garbage", "zlen", "zbomb", "splice", "hsflip", "hshuge", "hsgarbage", "count", "count", "hsvalue", "shortframe", "shortframe", "hsauth", "hsauth", "hsacceptor", "hsacceptor"}
 
 // c16Counts: offsets (>= from) of 4-byte big-endian fields holding a small number - lengths and
 // element counts of the encoded values
@@ -455,7 +459,16 @@ func (c16) Run(e *simkit.Env, cc any) {
 		unit, isHS := mutate(m, frames, hs)
 		runtime.ReadMemStats(&ms)
 		before := ms.TotalAlloc
-		if isHS {
+		if m.Kind == "hsacceptor" {
+			// the node dials a peer that knows the cookie and answers the handshake with hostile values
+			c16HostileAcceptor(e, sn, a, m)
+			e.Probe("hostile-acceptor-dialled")
+		} else if m.Kind == "hsauth" {
+			// a peer that knows the cookie and completes the handshake correctly - with values a
+			// program of its own may put there: holes in the caches, absurd limits and sizes
+			c16AuthHandshake(e, sn, m)
+			e.Probe("authenticated-hostile-handshake")
+		} else if isHS {
 			conn, err := sn.Dial("tcp", "h1:15000")
 			if err == nil {
 				conn.Write(unit)
@@ -501,7 +514,7 @@ func (c16) Run(e *simkit.Env, cc any) {
 	inStep := true
 	for _, m := range c.Muts {
 		switch m.Kind {
-		case "type", "order", "zlen", "zbomb", "splice", "count", "shortframe", "hsvalue", "hsflip", "hshuge", "hsgarbage":
+		case "type", "order", "zlen", "zbomb", "splice", "count", "shortframe", "hsvalue", "hsflip", "hshuge", "hsgarbage", "hsauth", "hsacceptor":
 		default:
 			inStep = false
 		}
@@ -595,4 +608,176 @@ func linkAlive(sn *simkit.SimNet, l *simkit.Link) bool {
 		}
 	}
 	return false
+}
+
+// c16AuthHandshake plays a dialling peer "x@h7" that knows the cookie: hello and introduce carry the
+// right digests, the rest of the introduce message is hostile.
+func c16AuthHandshake(e *simkit.Env, sn *simkit.SimNet, m C16Mut) {
+	conn, err := sn.Dial("tcp", "h1:15000")
+	if err != nil {
+		return
+	}
+	defer conn.Close()
+	digest := func(parts ...string) string {
+		h := sha256.New()
+		h.Write([]byte(strings.Join(parts, ":")))
+		return fmt.Sprintf("%x", h.Sum(nil))
+	}
+	salt := "c16-salt-0123456789"
+	conn.Write(hsFrame(handshake.MessageHello{Salt: salt, Digest: digest(salt, "k")}))
+	// the acceptor's hello carries the salt its introduce digest is made of
+	var got []byte
+	buf := make([]byte, 4096)
+	var hello handshake.MessageHello
+	for tries := 0; tries < 20; tries++ {
+		conn.SetReadDeadline(time.Now().Add(time.Second))
+		n, rerr := conn.Read(buf)
+		got = append(got, buf[:n]...)
+		if len(got) >= 6 && len(got) >= 6+int(binary.BigEndian.Uint32(got[2:6])) {
+			v, _, derr := edf.Decode(got[6:6+int(binary.BigEndian.Uint32(got[2:6]))], edf.Options{})
+			if derr == nil {
+				hello, _ = v.(handshake.MessageHello)
+			}
+			break
+		}
+		if rerr != nil {
+			return
+		}
+		e.Gate("adversary")
+	}
+	if hello.Salt == "" {
+		return
+	}
+	intro := handshake.MessageIntroduce{Node: "x@h7", Version: simkit.SimVersion, Flags: gen.DefaultNetworkFlags, Creation: 946684999, Digest: digest(hello.Salt, "k")}
+	switch m.Val % 6 {
+	case 0:
+		intro.ErrCache = map[uint16]error{5000: nil, 5001: fmt.Errorf("e")}
+	case 1:
+		intro.MaxMessageSize = -1
+	case 2:
+		intro.AtomCache = map[uint16]gen.Atom{}
+		for i := 0; i < 3000; i++ {
+			intro.AtomCache[uint16(i)] = gen.Atom(fmt.Sprintf("atom-%d-%s", i, strings.Repeat("y", m.Pos%200)))
+		}
+	case 3:
+		intro.RegCache = map[uint16]string{4096: "", 4097: "#no/such.Type", 65535: strings.Repeat("t", 300)}
+	case 4:
+		intro.Node = ""
+	case 5:
+		intro.Creation = 0
+		intro.Flags = gen.NetworkFlags{}
+	}
+	f := hsFrame(intro)
+	if f == nil {
+		return
+	}
+	conn.Write(f)
+	e.Settle(300 * time.Millisecond)
+	conn.Write(hsFrame(handshake.MessageAccept{}))
+	e.Settle(500 * time.Millisecond)
+	// and one ordinary-looking frame on the established connection
+	conn.Write([]byte{78, 1, 0, 0, 0, 9, 0, 101, 0})
+	e.Settle(500 * time.Millisecond)
+}
+
+func c16ReadFrame(e *simkit.Env, conn net.Conn, got []byte) (any, []byte) {
+	buf := make([]byte, 8192)
+	for tries := 0; tries < 40; tries++ {
+		if len(got) >= 6 {
+			l := int(binary.BigEndian.Uint32(got[2:6]))
+			if len(got) >= 6+l {
+				v, _, err := edf.Decode(got[6:6+l], edf.Options{})
+				if err != nil {
+					return nil, nil
+				}
+				return v, got[6+l:]
+			}
+		}
+		conn.SetReadDeadline(time.Now().Add(time.Second))
+		n, err := conn.Read(buf)
+		got = append(got, buf[:n]...)
+		if err != nil && n == 0 {
+			return nil, nil
+		}
+		e.Gate("adversary")
+	}
+	return nil, nil
+}
+
+// c16HostileAcceptor: an acceptor "x@h7" that knows the cookie. The node under test dials it (static
+// route) and gets a correct hello, then an accept / introduce pair with hostile values.
+func c16HostileAcceptor(e *simkit.Env, sn *simkit.SimNet, a gen.Node, m C16Mut) {
+	ln, err := sn.Listen("tcp", "h7:15000")
+	if err != nil {
+		return
+	}
+	defer ln.Close()
+	a.Network().AddRoute("x@h7", gen.NetworkRoute{Route: gen.Route{Host: "h7", Port: 15000}}, 100)
+	defer a.Network().RemoveRoute("x@h7")
+	digest := func(parts ...string) string {
+		h := sha256.New()
+		h.Write([]byte(strings.Join(parts, ":")))
+		return fmt.Sprintf("%x", h.Sum(nil))
+	}
+	served := make(chan struct{})
+	e.Go("hostile-acceptor", func() {
+		defer close(served)
+		conn, err := ln.Accept()
+		if err != nil {
+			return
+		}
+		defer conn.Close()
+		v, rest := c16ReadFrame(e, conn, nil)
+		hello, ok := v.(handshake.MessageHello)
+		if !ok {
+			return
+		}
+		salt2 := "c16-acceptor-salt"
+		conn.Write(hsFrame(handshake.MessageHello{Salt: salt2, Digest: digest(salt2, hello.Digest, "k")}))
+		v, rest = c16ReadFrame(e, conn, rest)
+		if _, ok := v.(handshake.MessageIntroduce); !ok {
+			return
+		}
+		acc := handshake.MessageAccept{ID: "c16-connection", PoolSize: 1, PoolDSN: []string{"h7:15000"}}
+		intro := handshake.MessageIntroduce{Node: "x@h7", Version: simkit.SimVersion, Flags: gen.DefaultNetworkFlags, Creation: 946684998}
+		switch m.Val % 7 {
+		case 0:
+			acc.PoolSize = 0
+		case 1:
+			acc.PoolSize = -3
+		case 2:
+			acc.PoolSize = 1 << 24
+		case 3:
+			acc.PoolDSN = nil
+		case 4:
+			acc.PoolDSN = []string{"", ":::", strings.Repeat("h", 300) + ":1"}
+			acc.PoolSize = 3
+		case 5:
+			intro.ErrCache = map[uint16]error{5000: nil}
+		case 6:
+			intro.Node = "a@h1"
+		}
+		conn.Write(hsFrame(acc))
+		e.Gate("adversary")
+		conn.Write(hsFrame(intro))
+		c16ReadFrame(e, conn, rest)
+		// one ordinary-looking frame on the established connection
+		conn.Write([]byte{78, 1, 0, 0, 0, 9, 1, 101, 0})
+		time.Sleep(500 * time.Millisecond)
+		e.Gate("adversary")
+	})
+	done := make(chan struct{})
+	e.Go("dial-hostile-acceptor", func() {
+		defer close(done)
+		_, err := a.Network().GetNode("x@h7")
+		e.Logf("GetNode(x@h7) -> %v", err)
+	})
+	e.WaitChan(done, time.Minute)
+	ln.Close()
+	e.WaitChan(served, time.Minute)
+	e.Settle(time.Second)
+	if rn, err := a.Network().Node("x@h7"); err == nil {
+		rn.Disconnect()
+		e.Settle(time.Second)
+	}
 }
